@@ -4,7 +4,7 @@
 FIX_COMMITS = [
     "02a02b1", "c32131a", "324bd77", "876de36", "e2492f3", "e522aa8", "02b45be", "2a6ea78", "7fbeea5", "b9a009d",
     "caa585b", "a0bae72", "49c1276", "a9a220e", "3b6199f", "d3ca28d", "e11250e", "3ac0c81", "b80de6a", "773425f",
-    "a468da5", "3e9bf5d", "abf25e6", "2859361", "650ac10",
+    "a468da5", "3e9bf5d", "abf25e6", "2859361", "650ac10", "2493939",
 ]
 
 NOT_APPLICABLE = {
@@ -16,6 +16,11 @@ TB = ("Trusted base: rustc nightly typeck/HIR/MIR and Instance::try_resolve; nig
 
 
 def P(rules, text, decided, not_decided, technique, level="other"):
+    uniq = []
+    for r_ in rules:
+        if r_ not in uniq:
+            uniq.append(r_)
+    rules = uniq
     return {
         "level": level,
         "rules": rules,
@@ -45,6 +50,13 @@ SCRATCH = ("emit", "loop_scratch", {})
 INJAT = ("modes", "inject_at_protocol", {})
 TFLOW = ("fields", "type_field_flow", {})
 LCG = ("mutators", "local_count_guard", {})
+WALK = ("special", "walk_bounds", {})
+SPFLAG = ("special", "special_flag", {})
+SAVESIB = ("misc", "save_siblings", {})
+FULLIT = ("emit", "full_iter", {})
+MAPUNC = ("emit", "mapper_uncond", {})
+ITCFG = ("iters", "config_immutable", {})
+SCOPED = ("misc", "scoped_pending", {})
 DELP = ("misc", "delete_pairing", {})
 REIDX = [("reindex", "refers_exh", {"kind": k}) for k in ("func", "global", "memory")]
 IDSPACE = ("mutators", "idspace", {})
@@ -55,12 +67,12 @@ def EM(kinds, names=False):
 
 
 PROPS = {
-    "C01": P([TT_WE, TT_AUX, CONSTEXPR, ("emit", "section_order", {}), ("nopanic", "payload_exh_rule", {}), SCRATCH] + REIDX,
+    "C01": P([FULLIT, TT_WE, TT_AUX, CONSTEXPR, ("emit", "section_order", {}), ("nopanic", "payload_exh_rule", {}), SCRATCH] + REIDX,
              "necessary-condition lint: every value type of the stated profile survives the reader→writer tables; constant-expression operators are re-emitted as themselves; sections are emitted in binary-format order; every payload kind has a handler",
              "R-TYPE-TABLE (wasm_encoder writer), aux tables, R-CONSTEXPR-TABLE, R-SECTION-ORDER, R-PAYLOAD-EXH, R-LOOP-SCRATCH, R-REFERS-EXH (the updaters run on every encode, with identity maps on an unmodified module: each must write a looked-up index back to the operand it was looked up for).",
              "that the whole output validates for every module.",
              "abstract interpretation of match tables over a finite type domain; call-order check"),
-    "C02": P([TT_WE, TT_AUX, CONSTEXPR, ("fields", "types_cover", {}), ("fields", "name_pairing", {}), ("fields", "struct_copy_pairing", {}), ("fields", "custom_sections", {}), IMPORD, SCRATCH, TFLOW] + REIDX,
+    "C02": P([FULLIT, TT_WE, TT_AUX, CONSTEXPR, ("fields", "types_cover", {}), ("fields", "name_pairing", {}), ("fields", "struct_copy_pairing", {}), ("fields", "custom_sections", {}), IMPORD, SCRATCH, TFLOW] + REIDX,
              "necessary conditions of content preservation: no type/const table changes a value, no Types field is dropped by the encoder, every name subsection and custom section is re-emitted from where it was stored, struct→struct copies pair like-named fields",
              "R-TYPE-TABLE, R-CONSTEXPR-TABLE, R-FIELDS-COVER(Types), R-NAME-PAIRING, R-COPY-PAIRING, R-CUSTOM-SECTIONS, R-IMPORT-ORDINAL, R-LOOP-SCRATCH, R-REFERS-EXH, R-TYPE-FIELD-FLOW.",
              "equality of decoded forms on every input.",
@@ -80,18 +92,18 @@ PROPS = {
              "R-IDEMPOTENT-ENCODE, R-RESOLVE-CLEARS, R-CLEAR-COHERENT.",
              "byte equality of two encodings.",
              "effect analysis of the encode call graph"),
-    "C06": P([("reindex", "refers_exh", {"kind": "func"}), ("reindex", "fix_op_dispatch", {}), EM(("func",)), MAPARGS, MISS, RECALC, REORG,
+    "C06": P([MAPUNC, ("reindex", "refers_exh", {"kind": "func"}), ("reindex", "fix_op_dispatch", {}), EM(("func",)), MAPARGS, MISS, RECALC, REORG,
               ("mutators", "coupled_import_order", {}), IDSPACE, FRESH, IMPORD],
              "necessary conditions for function references to stay bound: operator coverage, every function-index sink mapped, maps not swapped, loud failure on dangling references, re-indexing armed by every order-changing mutation, reorganise's position bookkeeping, import order coupling, no cross-space id casts",
              "R-REFERS-EXH(func), R-FIXOP-DISPATCH, R-EMIT-MAPPED(func), R-MAP-ARGS, R-MISS-LOUD, R-RECALC-SET, R-REORG-INV, R-COUPLED-IMPORT-ORDER, R-IDSPACE, R-FRESH-ID, R-IMPORT-ORDINAL.",
              "that reorganise computes the right permutation for every history (only its per-branch invariant preservation is checked); validity of the output.",
              "ADT-driven exhaustiveness + sink provenance + path rules"),
-    "C07": P([("reindex", "refers_exh", {"kind": "global"}), EM(("global",)), MAPARGS, MISS, RECALC, REORG, ("mutators", "who_may_call", {}), FRESH],
+    "C07": P([MAPUNC, ("reindex", "refers_exh", {"kind": "global"}), EM(("global",)), MAPARGS, MISS, RECALC, REORG, ("mutators", "who_may_call", {}), FRESH],
              "necessary conditions for global references to stay bound, incl. who may add to the globals collection",
              "R-REFERS-EXH(global), R-EMIT-MAPPED(global), R-MAP-ARGS, R-MISS-LOUD, R-RECALC-SET, R-REORG-INV, R-WHOMAYCALL, R-FRESH-ID.",
              "as C06.",
              "ADT-driven exhaustiveness + sink provenance + who-may-call"),
-    "C08": P([("reindex", "refers_exh", {"kind": "memory"}), ("reindex", "fix_op_dispatch", {}), EM(("memory",)), MAPARGS, MISS, RECALC, REORG, FRESH],
+    "C08": P([MAPUNC, ("reindex", "refers_exh", {"kind": "memory"}), ("reindex", "fix_op_dispatch", {}), EM(("memory",)), MAPARGS, MISS, RECALC, REORG, FRESH],
              "exhaustiveness of the memory re-index predicate/updater against the Operator ADT of the build; memory sinks mapped",
              "R-REFERS-EXH(memory), R-FIXOP-DISPATCH, R-EMIT-MAPPED(memory), R-MAP-ARGS, R-MISS-LOUD, R-RECALC-SET, R-REORG-INV, R-FRESH-ID.",
              "as C06.",
@@ -101,7 +113,7 @@ PROPS = {
              "R-DELETE-PAIRING, R-DEL-GUARD, R-MISS-LOUD, R-RECALC-SET, R-REORG-INV.",
              "that every other entity keeps its identity over all histories.",
              "field-provenance pairing + guarded-sink analysis"),
-    "C10": P([IDSPACE, ("misc", "convert_flows", {}), RECALC, IMPORD, REORG, DELP, LCG],
+    "C10": P([WALK, IDSPACE, ("misc", "convert_flows", {}), RECALC, IMPORD, REORG, DELP, LCG],
              "necessary: the slot flipped to Local is addressed in the function index space, under the signature guard, after the import was deleted",
              "R-IDSPACE, R-CONVERT-FLOW, R-RECALC-SET, R-IMPORT-ORDINAL, R-REORG-INV, R-DELETE-PAIRING (delete_func, which the conversion reuses, touches only the function and its import), R-LOCAL-COUNT-GUARD.",
              "that every former use executes the new body.",
@@ -111,7 +123,7 @@ PROPS = {
              "R-COUPLED-IMPORT-ORDER, R-COUNTER-INV, R-CONVERT-FLOW, R-RECALC-SET, R-REORG-INV.",
              "redirect semantics over histories.",
              "abstract counter deltas per path + provenance"),
-    "C12": P([("misc", "builder_flow", {}), ("mutators", "counter_inv", {}), ("mutators", "swap_flows", {}), TT_WE, ("mutators", "locals_owner", {}), LCG],
+    "C12": P([WALK, ("misc", "builder_flow", {}), ("mutators", "counter_inv", {}), ("mutators", "swap_flows", {}), TT_WE, ("mutators", "locals_owner", {}), LCG],
              "necessary: builder hand-over order and arguments, sibling agreement of the finish variants, counter invariant, no same-typed parameter swaps, type table",
              "R-BUILDER-FLOW, R-COUNTER-INV, R-SWAP, R-TYPE-TABLE, R-LOCALS (declared locals), R-LOCAL-COUNT-GUARD.",
              "decoded equality.",
@@ -126,42 +138,42 @@ PROPS = {
              "R-LOCALS (owner, shape on every path, caller arguments), R-TYPE-TABLE.",
              "nothing beyond the trusted base for the index formula; the encoded declaration relies on C01's tables.",
              "who-may-write + path enumeration"),
-    "C15": P([MODEF, ("modes", "has_instr_cover", {}), ("modes", "emit_order", {}), SIB, INJAT],
+    "C15": P([FULLIT, MODEF, ("modes", "has_instr_cover", {}), ("modes", "emit_order", {}), SIB, INJAT],
              "structural whole of the plain-mode lowering: mode→list dispatch, has_instr coverage, emission order on every path, sibling agreement of the injection APIs",
              "R-MODE-FIELD, R-HAS-INSTR, R-EMIT-ORDER, R-SIBLING(instrumenter), R-INJECT-AT.",
              "textual equality on concrete programs (a consequence).",
              "path enumeration over structured HIR + sibling effect summaries"),
-    "C17": P([LCG, BLOCKT, DETAILS, CLEARS, ("special", "entry_preserve", {})],
+    "C17": P([LCG, WALK, SPFLAG, CLEARCOH, MODEF, BLOCKT, DETAILS, CLEARS, ("special", "entry_preserve", {})],
              "necessary: exit probes cover every return/throw/trap operator, wrapper opened/closed once, entry at idx 0, entry body preserved",
              "R-BLOCK-TABLES(4), R-RESOLVER-DETAILS, R-RESOLVE-CLEARS, R-ENTRY-PRESERVE.",
              "firing counts at run time.",
              "ADT-driven table checks + path enumeration"),
-    "C18": P([LCG, BLOCKT, DETAILS, CLEARS],
+    "C18": P([LCG, WALK, SPFLAG, CLEARCOH, MODEF, BLOCKT, DETAILS, CLEARS],
              "necessary: accepting predicate, resolver and driver agree on {Block,Loop,If,Else}; body placed After the opener; list cleared",
              "R-BLOCK-TABLES(2), R-RESOLVER-DETAILS, R-RESOLVE-CLEARS.",
              "firing semantics.",
              "table agreement"),
-    "C19": P([LCG, BLOCKT, DETAILS, ("misc", "scoped_pending", {}), CLEARS],
+    "C19": P([LCG, SAVESIB, WALK, SPFLAG, CLEARCOH, MODEF, BLOCKT, DETAILS, ("misc", "scoped_pending", {}), CLEARS],
              "necessary: every opener pushed, exit bodies scoped to their block and resolved Before the closing else/end",
              "R-BLOCK-TABLES(1,2), R-RESOLVER-DETAILS, R-SCOPED-PENDING, R-RESOLVE-CLEARS.",
              "firing semantics.",
              "table agreement + container scoping analysis"),
-    "C20": P([LCG, BLOCKT, DETAILS, ("misc", "flag_reset", {}), ("misc", "dead_after_sink", {}), CLEARS],
+    "C20": P([LCG, SAVESIB, SCOPED, WALK, SPFLAG, CLEARCOH, MODEF, BLOCKT, DETAILS, ("misc", "flag_reset", {}), ("misc", "dead_after_sink", {}), CLEARS],
              "necessary: branch tables agree, target id arithmetic, flag protocol (set/reset), flag reset inside guard, no After code on the final end",
              "R-BLOCK-TABLES(1,3), R-RESOLVER-DETAILS, R-FLAG-RESET, R-DEAD-AFTER-SINK, R-RESOLVE-CLEARS.",
              "exactly-once at run time.",
              "table agreement + path enumeration"),
-    "C21": P([LCG, BLOCKT, DETAILS, CLEARS, CLEARCOH],
+    "C21": P([LCG, WALK, SPFLAG, CLEARCOH, MODEF, BLOCKT, DETAILS, CLEARS, CLEARCOH],
              "necessary: opener stack, delete_block bookkeeping, retain_end, every visited instruction emptied while deleting",
              "R-BLOCK-TABLES(1,2), R-RESOLVER-DETAILS, R-RESOLVE-CLEARS, R-CLEAR-COHERENT.",
              "textual result.",
              "table agreement + guarded-write analysis"),
-    "C22": P([LCG, ("special", "special_flag", {}), CLEARS, ("special", "entry_preserve", {}), MODEF, SIB, ("misc", "dead_after_sink", {}), ("modes", "has_instr_cover", {}), CLEARCOH, INJAT],
+    "C22": P([LCG, WALK, SAVESIB, SCOPED, ("special", "special_flag", {}), CLEARS, ("special", "entry_preserve", {}), MODEF, SIB, ("misc", "dead_after_sink", {}), ("modes", "has_instr_cover", {}), CLEARCOH, INJAT],
              "necessary set: the is-special result is never dropped, lowered lists are cleared with the matching mode, the saved entry body is never overwritten, mode→list dispatch, no dead After sink",
              "R-SPECIAL-FLAG, R-RESOLVE-CLEARS, R-ENTRY-PRESERVE, R-MODE-FIELD, R-SIBLING(instrumenter), R-DEAD-AFTER-SINK, R-HAS-INSTR, R-CLEAR-COHERENT, R-INJECT-AT.",
              "that every accepted special injection appears in the bytes for every body.",
              "result-use analysis + guarded-write analysis"),
-    "C23": P([("emit", "tag_emit", {}), MODEF, ("misc", "type_dedup", {})],
+    "C23": P([MAPUNC, FULLIT, ("emit", "tag_emit", {}), MODEF, ("misc", "type_dedup", {})],
              "necessary: InjectType↔Injection pairing, guards, parse-path tags are None, probe bodies collected after remapping",
              "R-TAG-EMIT (incl. R-PARSE-TAG-NONE), R-MODE-FIELD, R-TYPE-DEDUP (a parsed type is never overwritten by a tagged request for the same signature).",
              "record multiset over histories.",
@@ -171,27 +183,27 @@ PROPS = {
              "R-OPCODE-TABLE for all helpers, R-TYPE-TABLE(aux) for BlockType/HeapType conversions, writer agreement for DataType.",
              "Inject::inject implementations (C15/C12) and dependency From impls (trusted).",
              "abstract interpretation of each helper body; frozen reviewed name→variant table", level="proof"),
-    "C25": P([("iters", "skip_loop", {}), ("iters", "coupled_state", {}), ("iters", "index_sites", {})],
+    "C25": P([ITCFG, FULLIT, ("iters", "skip_loop", {}), ("iters", "coupled_state", {}), ("iters", "index_sites", {})],
              "necessary: the skip loop can only stop on an unskipped function or past the end; cursor and instruction bound move together; no unguarded index in the sub-iterators",
              "R-SKIP-LOOP, R-COUPLED-STATE, R-ITER-INDEX.",
              "exactly-once visiting over all skip lists.",
              "loop-exit condition analysis + path enumeration + MIR index sites"),
-    "C26": P([SIB, ("iters", "coupled_state", {}), ("mutators", "who_may_call", {})],
+    "C26": P([ITCFG, FULLIT, SIB, ("iters", "coupled_state", {}), ("mutators", "who_may_call", {})],
              "ModuleIterator and ComponentIterator perform the same operation on the same LocalFunction API for every trait method; module cursor changes rebuild the module sub-iterator from metadata and skip list",
              "R-SIBLING(instrumenter), R-COUPLED-STATE, R-WHOMAYCALL.",
              "visit-sequence equality over all components and skip maps.",
              "sibling effect summaries"),
-    "C27": P([("component", "variant_method_tables", {}), ("component", "section_pairing", {}), SCRATCH],
+    "C27": P([FULLIT, ("component", "variant_method_tables", {}), ("component", "section_pairing", {}), SCRATCH],
              "necessary: each defined-type / canonical-function variant is re-encoded through its own builder method; each section tag replays the vector it recorded with its own cursor",
              "R-VARIANT-METHOD (2 + 1 tables, 67 arms), R-SECTION-PAIRING (12 tags), R-LOOP-SCRATCH.",
              "correctness of the nesting-skip stack for depth ≥ 2 (push-down discipline over runtime payload sequences).",
              "variant→method correspondence + tag↔vector pairing"),
-    "C28": P([("fields", "custom_sections", {})],
+    "C28": P([FULLIT, ("fields", "custom_sections", {})],
              "necessary: one owner of the custom-section list, order-preserving API, name/data copied to name/data, forward emission",
              "R-CUSTOM-SECTIONS.",
              "byte equality of the emitted sections over edit sequences.",
              "who-may-write + field pairing"),
-    "C29": P([EM((), names=True), ("misc", "name_dispatch", {}), ("fields", "name_pairing", {}), IMPORD],
+    "C29": P([FULLIT, EM((), names=True), ("misc", "name_dispatch", {}), ("fields", "name_pairing", {}), IMPORD],
              "necessary: index-keyed name maps must not be emitted with pre-edit indices; naming dispatches on kind; each name kind re-emitted from where it was stored",
              "R-EMIT-MAPPED(names), R-NAME-DISPATCH, R-NAME-PAIRING, R-IMPORT-ORDINAL.",
              "name equality over histories.",
